@@ -23,6 +23,7 @@ import Restful.Lemmas.CorsRoutable
 import Restful.Lemmas.StateShape
 import Restful.Lemmas.TieCors
 import Restful.Lemmas.TieImpAllowed
+import Restful.Lemmas.TieImpFilters
 namespace Restful
 namespace Props
 open Str Cors
@@ -490,3 +491,4 @@ end Restful
 -- the imperative functions this property's model rests on, tied to their statement-by-statement
 -- translation (tools/goimp, Gen/Imp.lean, regenerated on every run):
 -- also: Restful.TieImp.compute_allowed_methods
+-- also: Restful.TieImp.cors_filter
